@@ -144,6 +144,7 @@ package multiplex
 //@   ensures valve: config.Valve != nil ==> ret0.Valve == config.Valve
 //@   ensures open: ret0.closed == 0 && ret0.nextStreamID == 1 && ret0.activeStreamCount == 0 && ret0.sb != nil
 //@   ensures wired: ret0.sb.session == ret0 && ret0.sb.valve == ret0.Valve && ret0.Valve != nil
+//@   ensures closableFromGoodConfig: cfgOK(config) ==> closable(ret0)
 
 //@ func makeSwitchboard
 //@   requires sesh != nil
@@ -245,6 +246,9 @@ package multiplex
 //@     return sesh != nil && sesh.sb != nil && cipherOK(&sesh.Obfuscator) && sesh.Valve != nil && sesh.maxStreamUnitWrite == sesh.MsgOnWireSizeLimit - 14 - 255 && sesh.streamSendBufferSize == sesh.MsgOnWireSizeLimit && sesh.maxStreamUnitWrite > 0 && sesh.sb.session == sesh
 //@ }
 //@ ghost func closable(sesh *Session) bool { return seshOK(sesh) && sesh.sb.valve != nil }
+// a configuration from which MakeSession builds a session every operation accepts (closable): an AEAD of
+// the two supported shapes or none, and an on-wire limit that leaves room for at least one payload byte
+//@ ghost func cfgOK(c SessionConfig) bool { return (c.payloadCipher == nil || (uf("aead_overhead", uf("aead_sem", c.payloadCipher)) == 16 && uf("aead_noncesize", uf("aead_sem", c.payloadCipher)) == 12)) && (c.MsgOnWireSizeLimit <= 0 || c.MsgOnWireSizeLimit > 269) }
 //@ ghost func nextSeq(a uint64, b uint64) bool { return (a < 18446744073709551615 && b == a + 1) || (a == 18446744073709551615 && b == 0) }
 
 //@ func MakeSession$2
